@@ -10,7 +10,11 @@
 (* every prediction a function of the history.                               *)
 EXTENDS XzStreamEnc, TLC, Json
 
-CONSTANTS Encs, Grants, Checks, BSizes
+CONSTANTS Encs, Grants, Checks, BSizes,
+          Profile    \* "all": every operation at every point (short histories);
+                     \* "stream": a long-running application that writes small pieces and flushes
+                     \* (like xz --flush-timeout): RUN / SYNC_FLUSH with 0..MaxIn units, now and then a FULL_FLUSH
+                     \* or new lc/lp/pb, never FINISH (the driver finishes); only the complete history is printed
 VARIABLE path
 
 C0(pre, lz) == Chain(pre, lz, "p0")
@@ -19,19 +23,26 @@ InitChains(e) == IF e = "raw"
                  ELSE {C0("none", "lzma2"), C0("delta", "lzma2"), C0("x86", "lzma2")}
 GTargets == {t \in ChainsAll : /\ t.lz = cfg.chain0.lz
                                /\ t.pre \in {cfg.chain0.pre, IF cfg.chain0.pre = "none" THEN "delta" ELSE "none"}}
+             \* ... or to a chain that is refused only when its filters are initialised (not with the threaded
+             \* encoder: there the worker thread finds out, see C08)
+             \cup (IF cfg.enc = "mt" THEN {} ELSE {Chain("armbad", cfg.chain0.lz, "p0")})
 
 GInit == /\ \E e \in Encs, g \in Grants, k \in Checks :
-              \E c \in InitChains(e), bs \in (IF e = "mt" THEN BSizes ELSE {0}) :
+              \E c \in {x \in InitChains(e) : Profile = "all" \/ (x.pre \in {"none", "delta"} /\ x.lz = "lzma2")}, bs \in (IF e = "mt" THEN BSizes ELSE {0}) :
                   InitWith(InitCfg(e, c, k, g, bs))
          /\ path = <<>>
 
+StreamOps == {<<a, n>> : a \in {"RUN", "SYNC_FLUSH"}, n \in 0..MaxIn} \cup {<<"FULL_FLUSH", 0>>}
 GNextX ==
     \/ /\ app.op = "none" /\ app.nops < MaxOps
-       /\ \E a \in AppActions, n \in 0..MaxIn : BeginCall(a, n, n, FALSE, 1, "any", FALSE) \/ RejectedCall(a, n)
+       /\ \E a \in AppActions, n \in 0..MaxIn :
+             /\ (Profile = "stream" => <<a, n>> \in StreamOps)
+             /\ BeginCall(a, n, n, FALSE, 1, "any", FALSE) \/ RejectedCall(a, n)
     \/ /\ app.op # "none"
        /\ BeginCall(app.op, app.left, app.left, FALSE, 1, "any", FALSE) \/ RejectedCall(app.op, app.left)
     \/ InnerStep
-    \/ /\ app.nops < MaxOps /\ \E t \in GTargets : Update(t)
+    \/ /\ app.nops < MaxOps
+       /\ \E t \in GTargets : (Profile = "stream" => (t.pre = cfg.chain0.pre /\ t.props \in GoodProps)) /\ Update(t)
 
 BlockList(b) == [i \in 1..Len(b) |-> [n |-> b[i].n, pre |-> b[i].chain.pre]]
 Rec(e) == IF e.kind = "op"
@@ -42,7 +53,7 @@ Rec(e) == IF e.kind = "op"
 GNext == GNextX /\ path' = IF ev'.kind = "none" THEN path ELSE Append(path, Rec(ev'))
 GSpec == GInit /\ [][GNext]_<<allvars, path>>
 GView == <<inited, supported, seq, savedIn, allowBuf, totalIn, cfg, app, call, sc, fl, mt, blocks>>
-Emit == (ev'.kind # "none") =>
+Emit == (ev'.kind # "none" /\ (Profile = "all" \/ app'.nops = MaxOps)) =>
             PrintT(<<"PLAN", ToJson([enc |-> cfg.enc, chain |-> cfg.chain0, check |-> cfg.check,
                                      grant |-> cfg.grant, bsize |-> cfg.bsize, ops |-> path'])>>)
 =============================================================================
